@@ -387,13 +387,88 @@ def kepcont_case():
                      "for any duration")
 
 
+def late_start_case(a_frac, tm_frac):
+    """the real KeplerNum._iter + _make_step (Euler, free motion: zero acceleration) + the real Ephem (Lagrange order 2) for an
+    iteration that starts a_frac steps after the epoch with an impulse tm_frac steps after the epoch (a_frac < tm_frac): every
+    state yielded after the maneuver date carries the delta-v exactly once"""
+    ins = [(k, "real") for k in RV + ["d1", "d2", "d3"]]
+    from fractions import Fraction
+    H = 60
+    a, tm = Fraction(a_frac) * H, Fraction(tm_frac) * H
+
+    def run(env, v):
+        if not env.symbolic:
+            return run_conc(env, v)
+        kn = env.mod("beyond.propagators.keplernum")
+        man = env.mod("beyond.orbits.man")
+        eph = env.mod("beyond.orbits.ephem")
+        env.mod("beyond.utils.interp")
+        kn.sign = lambda x: (1 if bool(R.lift(x) >= 0) else -1)
+        saved = (eph.StateVector, eph.Ephem.DEFAULT_ORDER)
+
+        class Sv(type(carrier([0]))):
+            def as_orbit(self, prop):
+                return self
+
+        def mk(vals, date, mans):
+            o = carrier(vals, date=date, frame="EME2000", maneuvers=mans).view(Sv)
+            o.date, o.frame, o.form, o.maneuvers = date, "EME2000", "cartesian", mans
+            return o
+        eph.StateVector = lambda arr, date, form, frame: mk(list(arr), date, [])
+        eph.Ephem.DEFAULT_ORDER = 2
+        kn.Ephem = eph.Ephem
+        try:
+            prop = kn.KeplerNum.__new__(kn.KeplerNum)
+            prop.method, prop.step, prop.tol, prop.bodies, prop.frame = "euler", SymTD(H), None, [], "EME2000"
+            m = man.ImpulsiveMan(SymDate(R.const(tm)), [v["d1"], v["d2"], v["d3"]])
+            orb = mk(_rv(v), SymDate(0), [m])
+            prop._orbit = orb
+            prop._accel = lambda y: env.np.array([y[3], y[4], y[5], 0, 0, 0])
+            out = list(prop._iter(start=SymDate(R.const(a)), stop=SymDate(R.const(a + 3 * H)), step=SymTD(H)))
+            last = out[-1]
+            return {"final_velocity": [last[3], last[4], last[5]], "n_points": len(out)}
+        finally:
+            eph.StateVector, eph.Ephem.DEFAULT_ORDER = saved
+
+    def run_conc(env, v):
+        from datetime import timedelta
+        from beyond.dates import Date
+        from beyond.orbits import Orbit
+        from beyond.orbits.man import ImpulsiveMan
+        from beyond.propagators.keplernum import KeplerNum
+        from beyond.env.solarsystem import get_body
+        d0 = Date(2020, 1, 1)
+        dv = np.array([v["d1"], v["d2"], v["d3"]], dtype=float)
+
+        def mk():
+            o = Orbit([7e6, 0, 0, 0, 7.5e3, 0], d0, "cartesian", "EME2000", KeplerNum(timedelta(seconds=H), get_body("Earth")))
+            o.maneuvers = [ImpulsiveMan(d0 + timedelta(seconds=float(tm)), dv)]
+            return o
+        late = list(mk().iter(start=d0 + timedelta(seconds=float(a)), stop=d0 + timedelta(seconds=float(a) + 10 * H), step=timedelta(seconds=H)))
+        ref = [o for o in mk().iter(start=d0, stop=late[-1].date, step=timedelta(seconds=H / 4))
+               if abs((o.date - late[-1].date).total_seconds()) < 1e-6][0]
+        d = np.array(late[-1])[3:] - np.array(ref)[3:]
+        n = max(1e-9, float(np.linalg.norm(dv)))
+        return {"final_velocity": list(d / n), "n_points": 4}
+
+    def ref(env, v, out):
+        if not env.symbolic:
+            return {"final_velocity": [0, 0, 0], "n_points": 4}
+        return {"final_velocity": [v["vx"] + v["d1"], v["vy"] + v["d2"], v["vz"] + v["d3"]], "n_points": 4}
+    return Case(f"late_start/{a_frac}-{tm_frac}", ins, run, ref, timeout=120, maxpaths=400, tol=1e-3, abs_tol=1e-3,
+                signature="KeplerNum._iter: impulse shortly after a start later than the epoch pollutes the start state",
+                desc=f"numerical iteration starting {a_frac} step after the epoch, impulse {tm_frac} step after the epoch: the states after "
+                     "the maneuver carry its delta-v exactly once")
+
+
 def all_cases(tier):
     cs = [local_case("QSW"), local_case("TNW")]
     for fr in (None, "QSW", "TNW"):
         for kind in ("impulsive", "cont_dv", "cont_accel"):
             cs.append(man_case(fr, kind))
     cs += [window_case(p) for p in ("start", "median", "stop")]
-    cs += [tiling_case(bounds(tier)["tiles"]), makestep_case(), dkep_case(), dkep_norm_case(), kepcont_case()]
+    cs += [tiling_case(bounds(tier)["tiles"]), makestep_case(), dkep_case(), dkep_norm_case(), kepcont_case(), late_start_case("1/2", "3/4"),
+           late_start_case("1", "3/2"), late_start_case("3/2", "7/4")]
     return cs
 
 
